@@ -49,6 +49,7 @@ type FuncResult struct {
 	UnboundLoops []int
 	gen *Gen
 	sweepOnly bool
+	listed    bool // named in the property's function list (a listed function that cannot be translated fails)
 }
 
 func (P *Program) NewGen(fn *ssa.Function, spec *FuncSpec) *Gen {
